@@ -44,8 +44,52 @@ def cfg_obj(c):
   return _cfg_cache[k]
 
 
+# ---- the process-wide config-check policy of the min/max algorithm can be
+# replaced at any time (Quantizer.load_config_policy /
+# algorithm_manager.register_config_check_policy_func); resolution checks a
+# rule's support at lookup time, i.e. under the policy in force *then*.
+_POLICY = ['default']
+
+
+def _policies():
+  import json
+  from ai_edge_quantizer import default_policy
+  if not _policies.cache:
+    pol_dir = os.path.join(core.REPO, 'ai_edge_quantizer', 'policies')
+    base = json.loads(default_policy.DEFAULT_JSON_POLICY)
+    int8 = {'configs': {k: v for k, v in base['configs'].items()
+                        if (v.get('weight_tensor_config') or {}).get('num_bits') in (8, None)},
+            'ops_per_config': {}}
+    int8['ops_per_config'] = {k: v for k, v in base['ops_per_config'].items() if k in int8['configs']}
+    _policies.cache.update({
+        'default': (None, default_policy.DEFAULT_CONFIG_CHECK_POLICY),
+        'example': (os.path.join(pol_dir, 'example_config_policy.json'), None),
+        'dummy': (os.path.join(pol_dir, 'dummy_config_policy.json'), None),
+        'int8only': (None, default_policy.update_default_config_policy(json.dumps(int8))),
+    })
+    for k, (path, pol) in list(_policies.cache.items()):
+      if pol is None:
+        with open(path) as f:
+          _policies.cache[k] = (path, default_policy.update_default_config_policy(f.read()))
+  return _policies.cache
+
+
+_policies.cache = {}
+POLICY_NAMES = ['default', 'example', 'dummy', 'int8only']
+
+
+def set_policy(name, via=None):
+  path, pol = _policies()[name]
+  if via is not None and path is not None:
+    via.load_config_policy(path)          # the public Quantizer method
+  else:
+    algorithm_manager.register_config_check_policy_func(
+        algorithm_manager.AlgorithmName.MIN_MAX_UNIFORM_QUANT, pol)
+  _POLICY[0] = name
+
+
 def supported(algo, op, cfg):
-  k = (algo, op, id(cfg))
+  k = (algo, op, id(cfg), _POLICY[0])
   if k not in _sup_cache:
     try:
       algorithm_manager.check_op_quantization_config(
@@ -149,6 +193,8 @@ def _nontrivial(steps):
 
 
 def run_enum(h):
+  if _POLICY[0] != 'default':
+    set_policy('default')
   rm = recipe_manager.RecipeManager()
   ref = RefRecipe(supported)
   steps = []
@@ -195,8 +241,10 @@ def histories(draw):
   n = draw(st.integers(1, 30))
   steps = []
   for _ in range(n):
-    k = draw(st.integers(0, 9))
-    if k <= 6:
+    k = draw(st.integers(0, 10))
+    if k == 10:
+      steps.append({'do': 'policy', 'which': draw(st.sampled_from(POLICY_NAMES))})
+    elif k <= 6:
       steps.append({'do': 'add', 'rule': draw(rule_specs()), 'enum': draw(st.booleans())})
     elif k <= 8:
       steps.append({'do': 'load', 'rules': draw(st.lists(rule_specs(), min_size=0, max_size=4))})
@@ -237,13 +285,24 @@ def _loadable(r):
 
 
 def run_history(spec):
+  set_policy('default')
+  try:
+    return _run_history(spec)
+  finally:
+    set_policy('default')
+
+
+def _run_history(spec):
   rm = _Facade() if spec.get('facade') else recipe_manager.RecipeManager()
   ref = RefRecipe(supported)
   flat = []
   labels = ['facade' if spec.get('facade') else 'manager']
   for k, s in enumerate(spec['steps']):
     where = 'step %d (%s)' % (k, s['do'])
-    if s['do'] == 'add':
+    if s['do'] == 'policy':
+      set_policy(s['which'], via=rm.q if spec.get('facade') else None)
+      labels.append('policy:' + s['which'])
+    elif s['do'] == 'add':
       r = s['rule']
       if not _constructible(r):
         labels.append('skipped:unconstructible_cfg')
@@ -279,12 +338,19 @@ def run_history(spec):
         continue
       old = ref.export()
       ref.clear()
+      expect_fail = False
       for regex, (op, algo, cfg) in old:
-        ref.add(regex, op, algo, _DEFAULT_CFG if algo == R.NOQ else cfg)
+        # re-validated on load: under a policy replaced since the rule was
+        # added, an exported rule can be refused (the prefix stays loaded)
+        if not ref.add(regex, op, algo, _DEFAULT_CFG if algo == R.NOQ else cfg):
+          expect_fail = True
+          break
       ok, err = core.call(rm.load_quantization_recipe, exp)
-      if not ok:
+      if not ok and not (expect_fail and isinstance(err, ValueError)):
         raise Violation('load_export_raises', '%r at %s' % (err, where))
-      labels.append('load_export')
+      if ok and expect_fail:
+        raise Violation('load_export_accepted_wrongly', where)
+      labels.append('load_export' if ok else 'load_export:refused_under_new_policy')
     compare(rm, ref, where)
   return core.result(_nontrivial(flat), sorted(set(labels)))
 
